@@ -115,6 +115,8 @@ type MW struct {
 	// Cancelable: the middleware returns a context the application can cancel (Env.CancelSession, or
 	// the "cancelsess" operation of a statement): an application-level "kill this session"
 	Cancelable bool `json:"cancelable,omitempty"`
+	// NilCtx: the failing middleware returns (nil, err) - the usual way to write it - instead of (ctx, err)
+	NilCtx bool `json:"nil_ctx,omitempty"`
 }
 
 // Config of the server under test.
@@ -143,6 +145,9 @@ type Config struct {
 	// this many names; Set / Bind of a further name returns an error (a bounded cache)
 	StmtCap   int `json:"stmt_cap,omitempty"`
 	PortalCap int `json:"portal_cap,omitempty"`
+	// SharePlans: the parse callback keeps a plan cache: the PreparedStatement objects it built for a
+	// query text are handed out again to whoever parses the same text (on any connection)
+	SharePlans bool `json:"share_plans,omitempty"`
 	// ExtendTypes registers an extra type (OID 99999) through the ExtendTypes option.
 	ExtendTypes bool `json:"extend_types,omitempty"`
 }
@@ -238,6 +243,7 @@ type Env struct {
 	ctxs     []capturedCtx
 	gates    map[string]chan struct{}
 	cancels  map[int][]context.CancelFunc
+	plans    map[string]wire.PreparedStatements
 	panics   []PanicRec
 
 	serveDone   chan error
@@ -787,6 +793,9 @@ func (e *Env) middleware(i int) wire.SessionHandler {
 			err := f.Build()
 			errFields(&ev, err)
 			e.add(ev)
+			if e.Cfg.MWs[i].NilCtx {
+				return nil, err
+			}
 			return ctx, err
 		}
 		e.add(ev)
@@ -860,6 +869,25 @@ func (e *Env) parse(ctx context.Context, query string) (stmts wire.PreparedState
 	ev.Idx = len(out.Stmts)
 	e.add(ev)
 	e.waitGate(ctx, out.Gate)
+	if e.Cfg.SharePlans {
+		// (the callback does the same work and records the same events either way; with a cached plan
+		// it hands out the objects built for the first caller instead of the fresh ones)
+		defer func() {
+			if err != nil {
+				return
+			}
+			e.mu.Lock()
+			defer e.mu.Unlock()
+			if cached, ok := e.plans[query]; ok {
+				stmts = cached
+				return
+			}
+			if e.plans == nil {
+				e.plans = map[string]wire.PreparedStatements{}
+			}
+			e.plans[query] = stmts
+		}()
+	}
 	for i := range out.Stmts {
 		st := out.Stmts[i]
 		cols := make(wire.Columns, len(st.Cols))
@@ -891,6 +919,11 @@ func (e *Env) stmtFn(query string, idx int, st Stmt) wire.PreparedStatementFn {
 		id := connID(ctx)
 		defer func() {
 			if r := recover(); r != nil {
+				if _, deliberate := r.(DeliberatePanic); deliberate {
+					// the "panic" operation: the statement function really panics
+					e.add(Event{Conn: id, K: "stmt.end", Q: query, ID: st.ID, Idx: idx, Out1: e.outLen(ctx), IsErr: true})
+					panic(r)
+				}
 				e.add(Event{Conn: id, K: "panic", Q: query, Idx: idx, Panic: fmt.Sprint(r)})
 				err = fmt.Errorf("statement panicked: %v", r)
 			}
@@ -925,6 +958,11 @@ func (e *Env) stmtFn(query string, idx int, st Stmt) wire.PreparedStatementFn {
 	}
 }
 
+// DeliberatePanic is the value the "panic" operation panics with.
+type DeliberatePanic struct{}
+
+func (DeliberatePanic) String() string { return "verif: statement function panics" }
+
 func (e *Env) runOps(ctx context.Context, w wire.DataWriter, query string, idx int, st Stmt) error {
 	id := connID(ctx)
 	for i, op := range st.Ops {
@@ -953,6 +991,13 @@ func (e *Env) runOps(ctx context.Context, w wire.DataWriter, query string, idx i
 			for t0 := time.Now(); e.L.CloseCount() == 0 && time.Since(t0) < 50*time.Millisecond; {
 				time.Sleep(20 * time.Microsecond)
 			}
+		case "panic":
+			// the statement function panics (the library recovers panics of statements run by Execute
+			// and reports them like an error)
+			ev.Written = w.Written()
+			ev.Out1 = e.outLen(ctx)
+			e.add(ev)
+			panic(DeliberatePanic{})
 		case "ret":
 			ev.Written = w.Written()
 			ev.Out1 = e.outLen(ctx)
